@@ -24,6 +24,23 @@
 namespace ex = pika::execution::experimental;
 
 static std::atomic<int> g_live{0};
+// identity ledger: every contained object has a serial number that is registered while the object is
+// alive; destroying an object twice, or one that was never constructed (storage swapped bitwise and then
+// destroyed through the wrong wrapper), is recorded here even if the live count happens to balance
+#include <set>
+static std::set<long> g_ids;
+static long g_next_serial = 1;
+static int g_ledger_errors = 0;
+static long ledger_new()
+{
+    long id = g_next_serial++;
+    g_ids.insert(id);
+    return id;
+}
+static void ledger_del(long id)
+{
+    if (g_ids.erase(id) != 1) ++g_ledger_errors;
+}
 
 // contained object: counts its instances; identity travels with the value
 template <int Pad>
@@ -31,27 +48,45 @@ struct payload
 {
     int val = 0;
     int calls = 0;
+    long serial = 0;
     char pad[Pad > 0 ? Pad : 1] = {};
     explicit payload(int v)
       : val(v)
+      , serial(ledger_new())
     {
         ++g_live;
     }
     payload(payload const& o)
       : val(o.val)
       , calls(o.calls)
+      , serial(ledger_new())
     {
         ++g_live;
     }
     payload(payload&& o) noexcept
       : val(o.val)
       , calls(o.calls)
+      , serial(ledger_new())
     {
         ++g_live;
     }
-    payload& operator=(payload const&) = default;
-    payload& operator=(payload&&) = default;
-    ~payload() { --g_live; }
+    payload& operator=(payload const& o)
+    {
+        val = o.val;
+        calls = o.calls;
+        return *this;
+    }
+    payload& operator=(payload&& o) noexcept
+    {
+        val = o.val;
+        calls = o.calls;
+        return *this;
+    }
+    ~payload()
+    {
+        --g_live;
+        ledger_del(serial);
+    }
     int operator()() { return val * 100 + calls++; }
 };
 
@@ -183,6 +218,7 @@ static std::string run_case(std::vector<step> const& steps, int nslots)
     using T = traits<K>;
     using W = typename T::W;
     int base = g_live.load();
+    int ledger_base = g_ledger_errors;
     std::string err;
     {
         std::vector<W> w(nslots + 1);
@@ -208,8 +244,21 @@ static std::string run_case(std::vector<step> const& steps, int nslots)
                 else if (s.op == "reset") w[s.i].reset();
                 else if (s.op == "swap")
                 {
-                    using std::swap;
-                    swap(w[s.i], w[s.j]);
+                    // the wrapper's own swap where it has one (alternating with the generic std::swap)
+                    if constexpr (K == k_function || K == k_unique_function)
+                    {
+                        if ((k + s.i) % 2 == 0) w[s.i].swap(w[s.j]);
+                        else
+                        {
+                            using std::swap;
+                            swap(w[s.i], w[s.j]);
+                        }
+                    }
+                    else
+                    {
+                        using std::swap;
+                        swap(w[s.i], w[s.j]);
+                    }
                 }
                 else if (s.op == "invoke") res = T::invoke(w[s.i]);
             }
@@ -237,6 +286,8 @@ static std::string run_case(std::vector<step> const& steps, int nslots)
             err = o.str();
         }
     }
+    if (err.empty() && g_ledger_errors != ledger_base)
+        err = "end: a contained object was destroyed twice or a never-constructed object was destroyed";
     if (err.empty() && g_live.load() != base)
     {
         std::ostringstream o;
